@@ -1,6 +1,6 @@
 #!/usr/bin/env bash
 # tools/run_all.sh [tier] — run every registered check once; print one line per check.
-cd /verif
+cd "$(dirname "$0")/.."
 TIER=${1:-quick}
 for id in C01 C02 C03 C04 C05 C06 C07 C08 C09 C10 C11 C12 C13 C14 C15 C16 C17; do
   t0=$(date +%s)
